@@ -360,7 +360,17 @@ fn gen_schema_case(rng: &mut Rng, focus: &str, jpath: &str) -> Case {
     let family;
     match rng.below(10) {
         0 if want.is_empty() || want == "DISTINCT" => { query = (*rng.pick(WIDE)).to_owned(); family = "wide"; }
-        1 | 2 if want.is_empty() => { query = (*rng.pick(NAME_QUERIES)).to_owned(); family = "names"; }
+        1 | 2 => {
+            // column naming (alias | column | p<i> | count<i> …, duplicates), under the clause the focus is about
+            query = (*rng.pick(NAME_QUERIES)).to_owned();
+            match want {
+                "LIMIT" => query.push_str(&format!(" LIMIT {}", rng.below(5))),
+                "DISTINCT" => { if !query.contains("DISTINCT") { query = query.replacen("SELECT ", "SELECT DISTINCT ", 1); } }
+                "JOIN" => query.push_str(&format!(" {} JOIN u::'{}' ON t.k = u.k", if rng.chance(1, 3) { "OUTER" } else { "INNER" }, jpath)),
+                _ => {}
+            }
+            family = "names";
+        }
         _ => {
             for _ in 0..40 {
                 query = gen_query(rng, &sch, &opts, jpath).text;
